@@ -97,7 +97,7 @@ theorem gn_refNext_eq (add mask w : Nat) (hmask : ∀ x, x < 2^64 → x &&& notW
     have hr := gn_refill_buffer_eq xof { s with pos := (s.pos + add) / (mask + 1) * (mask + 1) }
     simp only [ofSt] at hr
     rw [hr]
-    simp only [refill, xofL]
+    simp only [refill]
     rw [gn_readLE _ _ _ (by rw [hx]; omega), gn_ckAdd (by omega)]
   · have hc' : ¬ (s.pos + add) / (mask + 1) * (mask + 1) + w > BUF := by omega
     rw [if_neg hc, if_neg hc']
